@@ -75,6 +75,14 @@ def cells(tier):
         out.append(rcell(PID, N, k, T=T))
     out.append(rcell(PID, 2, 2, T=T, repeat_id=True))
     out.append(rcell(PID, 1, 1, T=T, repeat_id=True))
+    # states reached through a collection merge (strict and non-strict, with failing messages, complete or not)
+    from .p_c09 import mk as cmk
+    for kinds in (('roStoryMove', 'roStoryInsert'), ('roStorySend', 'roDelete'), ('roStoryReplace', 'roMetadataReplace'),
+                  ('roDelete', 'roStoryAppend')):
+        for strict in (True, False):
+            out.append(cmk(PID, kinds, strict, 'string', T=90 if tier == 'quick' else 600, readback=True, tag='reads-back'))
+    out.append(cmk(PID, ('roItemInsert', 'roReplace', 'roStoryDelete'), False, 'file', T=90 if tier == 'quick' else 600,
+                   mids=['9', '10', '100'], readback=True, tag='reads-back'))
     out.append(icell(PID, 'roDelete', N=2, T=T))
     out.append(icell(PID, 'roReadyToAir', N=2, T=T))
     for tw in ('same', 'blank', 'free'):
